@@ -78,6 +78,7 @@ func (w *WatcherHub) DeleteWatcher(sub chan []*proto.Event, lock bool) {
 // Stream push events to watchers.
 func (w *WatcherHub) Stream(input chan []*proto.Event) {
 	for item := range input {
+		var slowSubs []chan []*proto.Event
 		w.RLock()
 		for sub := range w.subs {
 			select {
@@ -87,10 +88,14 @@ func (w *WatcherHub) Stream(input chan []*proto.Event) {
 				klog.InfoS("drop slow consumer", "chan", sub, "bufSize", watchBuffer)
 				w.metricCli.EmitCounter("drop.slow.watcher", 1)
 				verifPoint(w, "slowSubscriber", 0)
-				go w.DeleteWatcher(sub, true)
+				slowSubs = append(slowSubs, sub)
 			}
 		}
 		w.RUnlock()
+		// close slow consumers before the next item is pushed: a consumer which missed an item must not get a later one
+		for _, sub := range slowSubs {
+			w.DeleteWatcher(sub, true)
+		}
 	}
 
 	w.Lock()
